@@ -2,7 +2,8 @@
   * whether `class unit` (the `Unit` sentinel returned by `UnitType.to_python_object`) defines `__hash__`
     (pinned tree: no => a set element / map key containing Unit is unhashable);
   * the shape of `PairType.__lt__` (pinned tree: not lexicographic; only used by `sorted` in `from_python_object`);
-  * the shape of the name generator in `get_type_layout`;
+  * the shape of the name generator in `get_type_layout` (repaired: generated names made different from the declared
+    ones / pinned: not / anything else: unrecognised);
   * that every mirrored function still has the body the hand-written mirror was made from (hash of the unparsed
     statements, docstrings stripped).  A changed body => `sourceRecognised = none`: the model refuses to run and the
     side condition of the theorems does not close."""
@@ -58,6 +59,10 @@ MIRRORED = {
     ('contract/data.py', 'ContractData', 'encode'): '6828d651262620a8',
 }
 
+# get_type_layout (module-level function of adt.py): the body the mirror `Impl.PyConv.layoutGo / renameGo / fresh` was made
+# from (fixes/C12-1: a second loop makes every generated `prim_i` name differ from all declared names and from the
+# generated names before it), and the body of the pinned tree (first loop only: `pair (nat %nat_1) nat` -> two `nat_1`)
+LAYOUT_FRESH = 'bc57edfef740368a'
 LAYOUT_PINNED = 'f45adf8c82a80d26'
 
 PAIR_LT_PINNED = ['for i, item in enumerate(self.items):\n    if item > other.items[i]:\n        return False', 'return True']
@@ -112,12 +117,21 @@ def gen(status):
 
     # ---- name generator of get_type_layout
     gl = get_fn(tree('michelson/types/adt.py'), None, 'get_type_layout')
-    gen_shape = None
-    if gl is not None and body_hash(gl) == LAYOUT_PINNED:
-        gen_shape = 'primIndex'   # f'{arg.prim}_{i}', not reserved, may collide with a declared name
-    status['get_type_layout name generator'] = (gen_shape is not None, gen_shape or 'unrecognised body')
-    out.append("/-- `path_to_key[bin_path] = f'{arg.prim}_{i}'` for unnamed / duplicate arguments, never added to `reserved` -/")
-    out.append('def generatedNameIsPrimIndex : Option Bool := ' + ('some true' if gen_shape == 'primIndex' else 'none'))
+    fresh = None
+    if gl is not None:
+        h = body_hash(gl)
+        if h == LAYOUT_FRESH:
+            fresh = True     # while name in taken: name += '_'  (taken = declared names + generated names so far)
+        elif h == LAYOUT_PINNED:
+            fresh = False    # f'{arg.prim}_{i}' used as it is: may equal a declared name
+    status['get_type_layout name generator'] = (
+        fresh is True,
+        'generated names made different from every declared name (second loop, as mirrored)' if fresh
+        else "old shape: f'{arg.prim}_{i}' is never compared with the declared names (pair (nat %nat_1) nat -> nat_1, nat_1)" if fresh is False
+        else 'unrecognised body')
+    out.append('/-- name generator of `get_type_layout`: are the generated `prim_i` names made different from every declared name')
+    out.append('(`some false`: the old shape, a generated name can equal a declared one; `none`: unrecognised body)? -/')
+    out.append('def generatedNamesFresh : Option Bool := ' + ('none' if fresh is None else f'some {str(fresh).lower()}'))
 
     # ---- everything else that is mirrored
     bad = []
@@ -128,5 +142,5 @@ def gen(status):
     status['mirror source: to/from_python_object, iter_*, wrap_*, encode/decode'] = (
         not bad, f'{len(MIRRORED)} function bodies as mirrored' if not bad else 'changed: ' + ', '.join(bad))
     out.append('/-- the mirrored function bodies are the ones the hand-written mirror was made from -/')
-    out.append('def sourceRecognised : Option Unit := ' + ('some ()' if not bad and gen_shape is not None else 'none'))
+    out.append('def sourceRecognised : Option Unit := ' + ('some ()' if not bad and fresh is not None else 'none'))
     return '\n'.join(out) + '\n'
